@@ -80,7 +80,11 @@ def kaPeriodic : Nat := Gen.KATriggerPeriodic
 
 /-! ## read commands -/
 
-/-- the switch of `handleReadCommands` on one resource name: message name -/
+/-- the resource names with a `case` in the switch of `handleReadCommands` -/
+def readResources : List String :=
+  [Gen.drv_ResourceReaderConfig, Gen.drv_ResourceReaderCap, Gen.drv_ResourceROSpec, Gen.drv_ResourceAccessSpec]
+
+/-- the switch of `handleReadCommands` on one resource name: name of the request structure -/
 def readMsgName (res : String) : Option String :=
   if res = Gen.drv_ResourceReaderConfig then some "GetReaderConfig"
   else if res = Gen.drv_ResourceReaderCap then some "GetReaderCapabilities"
@@ -88,21 +92,36 @@ def readMsgName (res : String) : Option String :=
   else if res = Gen.drv_ResourceAccessSpec then some "GetAccessSpecs"
   else none
 
+/-- name of the response structure assigned next to a request structure -/
+def respName (n : String) : String := if n = "CustomMessage" then n else n ++ "Response"
+
 def readOne (res : String) : Except Reject Request :=
   match readMsgName res with
-  | some n => .ok { typ := code n, resp := code (n ++ "Response") }
+  | some n => .ok { typ := code n, resp := code (respName n) }
   | none => .error .unknownResource
+
+def readAll : List String → Except Reject (List Request)
+  | [] => .ok []
+  | r :: rs =>
+    match readOne r with
+    | .error e => .error e
+    | .ok q => match readAll rs with
+      | .error e => .error e
+      | .ok qs => .ok (q :: qs)
 
 /-- `handleReadCommands`: one request per resource, in order; nothing is sent unless every resource is known -/
 def readCmd (c : Cmd) : Except Reject (List Request) :=
-  if c.reqs.isEmpty then .error .noRequests
-  else c.reqs.mapM readOne
+  if c.reqs = [] then .error .noRequests else readAll c.reqs
 
 /-! ## write commands -/
 
 inductive WRes where
   | readerConfig | roSpec | accessSpec | roSpecID | accessSpecID | custom
 deriving DecidableEq, Repr
+
+/-- the resource names with a `case` in the outer switch of `handleWriteCommands` -/
+def writeResources : List String :=
+  [Gen.drv_ResourceReaderConfig, Gen.drv_ResourceROSpec, Gen.drv_ResourceAccessSpec, Gen.drv_ResourceROSpecID, Gen.drv_ResourceAccessSpecID]
 
 /-- outer switch of `handleWriteCommands` on `reqs[0].DeviceResourceName` -/
 def classifyW (res : String) : WRes :=
@@ -113,9 +132,24 @@ def classifyW (res : String) : WRes :=
   else if res = Gen.drv_ResourceAccessSpecID then .accessSpecID
   else .custom
 
+/-- request structure assigned directly in a case of the outer switch -/
+def wMsgName : WRes → Option String
+  | .readerConfig => some "SetReaderConfig"
+  | .roSpec => some "AddROSpec"
+  | .accessSpec => some "AddAccessSpec"
+  | .custom => some "CustomMessage"
+  | .roSpecID | .accessSpecID => none
+
 inductive Act where
   | enable | start | stop | disable | delete
 deriving DecidableEq, Repr
+
+def Act.all : List Act := [.enable, .start, .stop, .disable, .delete]
+
+/-- the action's case label -/
+def Act.str : Act → String
+  | .enable => Gen.drv_ActionEnable | .start => Gen.drv_ActionStart | .stop => Gen.drv_ActionStop
+  | .disable => Gen.drv_ActionDisable | .delete => Gen.drv_ActionDelete
 
 def classifyA (s : String) : Option Act :=
   if s = Gen.drv_ActionEnable then some .enable
@@ -125,15 +159,16 @@ def classifyA (s : String) : Option Act :=
   else if s = Gen.drv_ActionDelete then some .delete
   else none
 
-def Act.verb : Act → String
-  | .enable => "Enable" | .start => "Start" | .stop => "Stop" | .disable => "Disable" | .delete => "Delete"
-
 /-- inner switch under `ROSpecID` -/
-def roAction (a : Act) : Option String := some (a.verb ++ "ROSpec")
+def roAction : Act → Option String
+  | .enable => some "EnableROSpec" | .start => some "StartROSpec" | .stop => some "StopROSpec"
+  | .disable => some "DisableROSpec" | .delete => some "DeleteROSpec"
 /-- inner switch under `AccessSpecID` (LLRP has no Start/Stop for access specs) -/
 def accessAction : Act → Option String
   | .enable => some "EnableAccessSpec" | .disable => some "DisableAccessSpec" | .delete => some "DeleteAccessSpec"
-  | _ => none
+  | .start | .stop => none
+
+def idMsgName (isRO : Bool) (a : Act) : Option String := if isRO then roAction a else accessAction a
 
 def attr (m : List (String × AttrVal)) (k : String) : AttrVal :=
   match m with
@@ -154,57 +189,74 @@ def objectParam (p : PVal) : Except Reject (Option (Nat × Nat)) :=
   | .null => .error .nullObject
   | _ => .error .badJSON
 
+/-- the `ROSpecID` / `AccessSpecID` cases -/
 def idAction (isRO : Bool) (ps : List Param) : Except Reject Request :=
   match ps with
   | [p0, p1] =>
-    if p1.name ≠ Gen.drv_ResourceAction then .error .noAction
-    else match p0.val with
+    if p1.name = Gen.drv_ResourceAction then
+      match p0.val with
       | .uint32 n =>
         match p1.val with
         | .str s _ =>
           match classifyA s with
           | none => .error .unknownAction
           | some a =>
-            match (if isRO then roAction a else accessAction a) with
+            match idMsgName isRO a with
             | none => .error .unknownAction
-            | some nm => .ok { typ := code nm, resp := code (nm ++ "Response"), id := some n }
+            | some nm => .ok { typ := code nm, resp := code (respName nm), id := some n }
         | _ => .error .badAction
       | _ => .error .badId
+    else .error .noAction
   | _ => .error .wrongCount
+
+/-- the default (custom message) case -/
+def customMessage (attrs : List (String × AttrVal)) (p0 : PVal) : Except Reject Request :=
+  match uintAttr attrs Gen.drv_AttribVendor with
+  | .error e => .error e
+  | .ok vendor =>
+    if vendor ≤ 4294967295 then
+      match uintAttr attrs Gen.drv_AttribSubtype with
+      | .error e => .error e
+      | .ok subtype =>
+        if subtype ≤ 255 then
+          match p0 with
+          | .str _ true => .ok { typ := code "CustomMessage", resp := code (respName "CustomMessage"), custom := some (vendor, subtype), payloadFrom := some 0 }
+          | .str _ false => .error .badBase64
+          | _ => .error .badPayloadType
+        else .error .attrRange
+    else .error .attrRange
+
+/-- the object cases: `ReaderConfig`, `ROSpec`, `AccessSpec` -/
+def objectMessage (nm : String) (isConfig : Bool) (p0 : PVal) : Except Reject Request :=
+  match objectParam p0 with
+  | .error e => .error e
+  | .ok ka => .ok { typ := code nm, resp := code (respName nm), payloadFrom := some 0, ka := if isConfig then ka else none }
+
+/-- the cases that take exactly one resource: its parameter supplies the payload -/
+def single (nreqs : Nat) (ps : List Param) (f : PVal → Except Reject Request) : Except Reject Request :=
+  if nreqs = 1 then
+    match ps with
+    | [] => .error .countMismatch
+    | p0 :: _ => f p0.val
+  else .error .extraResources
+
+/-- everything after the count checks, by the class of `reqs[0].DeviceResourceName` -/
+def writeCore (w : WRes) (nreqs : Nat) (attrs : List (String × AttrVal)) (ps : List Param) : Except Reject Request :=
+  match w with
+  | .roSpecID => idAction true ps
+  | .accessSpecID => idAction false ps
+  | .readerConfig => single nreqs ps (objectMessage "SetReaderConfig" true)
+  | .roSpec => single nreqs ps (objectMessage "AddROSpec" false)
+  | .accessSpec => single nreqs ps (objectMessage "AddAccessSpec" false)
+  | .custom => single nreqs ps (customMessage attrs)
 
 /-- `handleWriteCommands` up to (not including) `TrySend` -/
 def writeCmd (c : Cmd) : Except Reject Request :=
-  match c.reqs, c.params with
-  | [], _ => .error .noRequests
-  | r0 :: rs, ps =>
-    if (r0 :: rs).length ≠ ps.length then .error .countMismatch
-    else match ps with
-    | [] => .error .countMismatch
-    | p0 :: _ =>
-      match classifyW r0 with
-      | .roSpecID => idAction true ps
-      | .accessSpecID => idAction false ps
-      | w =>
-        if rs ≠ [] then .error .extraResources
-        else match w with
-        | .readerConfig => do
-            let ka ← objectParam p0.val
-            pure { typ := code "SetReaderConfig", resp := code "SetReaderConfigResponse", payloadFrom := some 0, ka := ka }
-        | .roSpec => do
-            let _ ← objectParam p0.val
-            pure { typ := code "AddROSpec", resp := code "AddROSpecResponse", payloadFrom := some 0 }
-        | .accessSpec => do
-            let _ ← objectParam p0.val
-            pure { typ := code "AddAccessSpec", resp := code "AddAccessSpecResponse", payloadFrom := some 0 }
-        | _ => do
-            let vendor ← uintAttr c.attrs Gen.drv_AttribVendor
-            if vendor > 4294967295 then throw .attrRange
-            let subtype ← uintAttr c.attrs Gen.drv_AttribSubtype
-            if subtype > 255 then throw .attrRange
-            match p0.val with
-            | .str _ true => pure { typ := code "CustomMessage", resp := code "CustomMessage", custom := some (vendor, subtype), payloadFrom := some 0 }
-            | .str _ false => throw .badBase64
-            | _ => throw .badPayloadType
+  match c.reqs with
+  | [] => .error .noRequests
+  | r0 :: rs =>
+    if rs.length + 1 = c.params.length then writeCore (classifyW r0) (rs.length + 1) c.attrs c.params
+    else .error .countMismatch
 
 /-! ## TrySend's SetReaderConfig rewriting -/
 
@@ -258,7 +310,7 @@ def reservedWrite : List String := ["ReaderConfig", "ROSpec", "AccessSpec", "ROS
 
 def find {α} [DecidableEq α] (k : α) : List (α × String) → Option String
   | [] => none
-  | (a, b) :: r => if a = k then some b else find k r
+  | (a, b) :: r => if k = a then some b else find k r
 
 /-- the whole table: (isWrite, resource, action) ↦ message name. `action` is ignored unless the resource is an ID. -/
 def table (isWrite : Bool) (res : String) (action : Option String) : Option String :=
